@@ -579,6 +579,26 @@ def uninitialised_uses(f):
 
 
 # ---------------------------------------------------- moving from the caller's object
+def _bound_to_own_object(f, ref_expr):
+    """the reference parameter of an inlined helper is bound to an object the enclosing function owns: one of its
+    non-reference locals, or a parameter it received by value / by rvalue reference"""
+    tgt = path(f, ref_expr)
+    if not tgt or "->" in tgt or "*" in tgt or tgt.startswith("this"):
+        return False
+    root = tgt.split(".")[0]
+    for s2 in f.stmts.values():
+        if s2["k"] == "DeclStmt":
+            for dd in s2["decls"]:
+                if "l:" + dd["name"] == root:
+                    return not dd.get("ref") or dd.get("type", "").rstrip().endswith("&&")
+    if root.startswith("p:"):
+        for pd in f.params:
+            if "p:" + pd["name"] == root:
+                t = pd.get("type", "").strip()
+                return not t.endswith("&") or t.endswith("&&")
+    return False
+
+
 def moves_from_lvalue_ref(f):
     """std::move applied to a parameter (or an inlined helper's parameter) whose type is a NON-const lvalue reference:
     the callee empties an object its caller still owns.  In an instantiated forwarding function this is what
@@ -598,6 +618,8 @@ def moves_from_lvalue_ref(f):
         if d.get("k") == "param" or d.get("inl"):
             t = d.get("type", "").strip()
             if t.endswith("&") and not t.endswith("&&") and not t.startswith("const "):
+                if d.get("inl") and _bound_to_own_object(f, a):
+                    continue        # a private helper that consumes its caller's LOCAL (lock, handle) through a reference
                 out.append((st, d.get("name")))
         elif d.get("k") == "local" and d.get("ref") and not d.get("inl_ret"):
             # `auto& slot = map.find(k)->second; use(std::move(slot));` empties storage that belongs to somebody else
